@@ -1,6 +1,7 @@
 """C15 - Additional half tone transposes F0 and nothing else."""
 import math
 
+import re
 from ..expr import ExprBuilder, show, stores, root_of, walk, to_poly, Poly, to_clamp, Clamp, canon, mut_arg_calls
 from ..flow import condition_flow
 from .. import paths
@@ -65,6 +66,20 @@ def run(ctx):
                     if c[0] == "bin" and {show(c[2]), show(c[3])} == {"additional_half_tone", "0.0"}:
                         if (c[1] == "Eq" and not pos) or (c[1] == "Ne" and pos):
                             nz = True
+            # every state: besides h != 0 the store may only be guarded by the plain traversal of self.0
+            for g in gs:
+                if g[0] in ("true", "false"):
+                    pos, c = paths.bool_atoms(g)
+                    if c[0] == "bin" and {show(c[2]), show(c[3])} == {"additional_half_tone", "0.0"}:
+                        continue
+                gsrc = show(g[1]) if len(g) > 1 and isinstance(g[1], tuple) else str(g)
+                if g[0] == "some" and re.match(r"^<std::slice::IterMut<.*?> as std::iter::Iterator>::next\(self\.0\)$", gsrc):
+                    ctx.ok("C15-R2", "the store runs for every element of self.0 (plain iter_mut traversal)", cm.loc_of(st["span"]))
+                    continue
+                if g[0] == "some" and re.match(r"^std::iter::range::<impl std::iter::Iterator for std::ops::Range<A>>::next\(std::ops::Range::Range\{start: 0, end: (std::vec::Vec::<T, A>::len|core::slice::<impl \[T\]>::len|len)\(self\.0\)\}\)$", gsrc):
+                    ctx.ok("C15-R2", "the store runs for every index 0..self.0.len()", cm.loc_of(st["span"]))
+                    continue
+                ctx.fail("C15-R2", b.path, "conditional shift", "the shift is not applied to every state: the store is additionally guarded by [%s] %s (the voiced/unvoiced decision is taken later against the configured MSD threshold, so every state's mean must be shifted)" % (g[0], gsrc[:200]), cm.loc_of(st["span"]))
             # R3 form
             old = ("OLD",)
             h = ("H",)
